@@ -77,161 +77,109 @@ theorem timer_due_at_windowEnd (now loopNow p : Int) (al : Option Int) :
     · rw [windowEnd_some_aligned _ _ _ h]; simp [firstTickTime]; omega
     · rw [windowEnd_some_unaligned _ _ _ h]; simp only [firstTickTime]; omega
 
-/-! ### the tick machine, snapshot semantics -/
+/-! ### the tick machine, snapshot semantics, window advanced also by ticks that end with an error -/
 
 /-- The timestamp the next `tickStart` will hand out. -/
 def nextTs (p : Int) (st : State) : Int := if st.inflight.isSome then st.windowEnd + p else st.windowEnd
 
-theorem runWith_nil (snap : Bool) (p : Int) (st : State) : runWith snap p st [] = (st, []) := rfl
+theorem runWith_nil (snap advErr : Bool) (p : Int) (st : State) : runWith snap advErr p st [] = (st, []) := rfl
 
-theorem runWith_cons (snap : Bool) (p : Int) (st : State) (e : Event) (es : List Event) :
-    runWith snap p st (e :: es) =
-      ((runWith snap p (stepWith snap p st e).1 es).1, (stepWith snap p st e).2 ++ (runWith snap p (stepWith snap p st e).1 es).2) := rfl
+theorem runWith_cons (snap advErr : Bool) (p : Int) (st : State) (e : Event) (es : List Event) :
+    runWith snap advErr p st (e :: es) =
+      ((runWith snap advErr p (stepWith snap advErr p st e).1 es).1,
+       (stepWith snap advErr p st e).2 ++ (runWith snap advErr p (stepWith snap advErr p st e).1 es).2) := rfl
 
-theorem runWith_append (snap : Bool) (p : Int) (st : State) (es₁ es₂ : List Event) :
-    runWith snap p st (es₁ ++ es₂) =
-      ((runWith snap p (runWith snap p st es₁).1 es₂).1,
-       (runWith snap p st es₁).2 ++ (runWith snap p (runWith snap p st es₁).1 es₂).2) := by
-  induction es₁ generalizing st with
-  | nil => simp [runWith_nil]
-  | cons e es ih => simp only [List.cons_append, runWith_cons, ih, List.append_assoc]
+/-- What one step does to the quantities the timeline depends on. -/
+theorem step_effect (p : Int) (st : State) (e : Event) (hd : st.dead = false) :
+    (stepWith true true p st e).1.dead = false ∧
+    (((stepWith true true p st e).2 = [] ∧ nextTs p (stepWith true true p st e).1 = nextTs p st) ∨
+     (∃ rc, (stepWith true true p st e).2 = [{ ts := nextTs p st, recipients := rc }] ∧
+        nextTs p (stepWith true true p st e).1 = nextTs p st + p)) := by
+  obtain ⟨w, ser, fl, inf, rs, stp, dead⟩ := st
+  simp only at hd
+  subst hd
+  cases e with
+  | add s =>
+    by_cases h : s ∈ ser <;> simp [stepWith, nextTs, h]
+  | remove s => simp [stepWith, nextTs] <;> rfl
+  | fail s => simp [stepWith, nextTs] <;> rfl
+  | restart rs' => simp [stepWith, nextTs] <;> rfl
+  | tickStart =>
+    cases stp <;> cases inf <;> simp [stepWith, nextTs]
+  | tickEnd =>
+    cases inf with
+    | none => simp [stepWith, nextTs]
+    | some n =>
+      cases hr : rs.isEmpty <;> simp [stepWith, nextTs, advanceWindowEnd, hr]
 
-/-- Under snapshot semantics the loop task never dies, and the emitted timestamps are consecutive grid points. -/
+/-- Under snapshot semantics the loop task never dies, and the emitted timestamps are consecutive grid points —
+whatever fails, is removed or restarted in between. -/
 theorem run_snapshot (p : Int) (es : List Event) (st : State) (hd : st.dead = false) :
-    (runWith true p st es).1.dead = false ∧
-    (runWith true p st es).2.map (·.ts) = expected (nextTs p st) p (runWith true p st es).2.length := by
+    (runWith true true p st es).1.dead = false ∧
+    (runWith true true p st es).2.map (·.ts) = expected (nextTs p st) p (runWith true true p st es).2.length ∧
+    nextTs p (runWith true true p st es).1 = nextTs p st + ((runWith true true p st es).2.length : Int) * p := by
   induction es generalizing st with
   | nil => simp [runWith_nil, expected, hd]
   | cons e es ih =>
-    obtain ⟨w, ser, inf, dead⟩ := st
-    simp only at hd
-    subst hd
     rw [runWith_cons]
-    cases e with
-    | add s =>
-      have := ih ⟨w, addSeries ser s, inf, false⟩ rfl
-      simpa [stepWith, nextTs] using this
-    | remove s =>
-      have := ih ⟨w, removeSeries ser s, inf, false⟩ rfl
-      simpa [stepWith, nextTs] using this
-    | tickStart =>
-      cases inf with
-      | some n =>
-        have := ih ⟨w, ser, some n, false⟩ rfl
-        simpa [stepWith] using this
-      | none =>
-        have := ih ⟨w, ser, some ser.length, false⟩ rfl
-        simp only [stepWith, Option.isSome_none, Bool.false_eq_true, if_false, List.singleton_append,
-          List.map_cons, List.length_cons]
-        refine ⟨this.1, ?_⟩
-        rw [this.2, expected_succ]
-        simp [nextTs]
-    | tickEnd =>
-      cases inf with
-      | none =>
-        have := ih ⟨w, ser, none, false⟩ rfl
-        simpa [stepWith] using this
-      | some n =>
-        have := ih ⟨advanceWindowEnd w p, ser, none, false⟩ rfl
-        simpa [stepWith, nextTs, advanceWindowEnd] using this
-
-/-- `windowEnd` after a schedule = what the next tick will be stamped with, counted from the start. -/
-theorem run_snapshot_nextTs (p : Int) (es : List Event) (st : State) (hd : st.dead = false) :
-    nextTs p (runWith true p st es).1 = nextTs p st + ((runWith true p st es).2.length : Int) * p := by
-  induction es generalizing st with
-  | nil => simp [runWith_nil]
-  | cons e es ih =>
-    obtain ⟨w, ser, inf, dead⟩ := st
-    simp only at hd
-    subst hd
-    rw [runWith_cons]
-    cases e with
-    | add s =>
-      have := ih ⟨w, addSeries ser s, inf, false⟩ rfl
-      simp only [stepWith, nextTs] at this ⊢
-      exact this
-    | remove s =>
-      have := ih ⟨w, removeSeries ser s, inf, false⟩ rfl
-      simp only [stepWith, nextTs] at this ⊢
-      exact this
-    | tickStart =>
-      cases inf with
-      | some n =>
-        have := ih ⟨w, ser, some n, false⟩ rfl
-        simp only [stepWith, Option.isSome_some, Option.isSome_none, if_true, Bool.false_eq_true, if_false,
-          List.nil_append] at this ⊢
-        exact this
-      | none =>
-        have := ih ⟨w, ser, some ser.length, false⟩ rfl
-        simp only [stepWith, Option.isSome_none, Bool.false_eq_true, if_false, List.singleton_append,
-          List.length_cons]
-        rw [this]
-        simp only [nextTs, Option.isSome_some, Option.isSome_none, if_true, Bool.false_eq_true, if_false]
-        have h1 : (((runWith true p ⟨w, ser, some ser.length, false⟩ es).2.length + 1 : Nat) : Int)
-            = ((runWith true p ⟨w, ser, some ser.length, false⟩ es).2.length : Int) + 1 := by omega
+    obtain ⟨hd', heff⟩ := step_effect p st e hd
+    obtain ⟨ih1, ih2, ih3⟩ := ih (stepWith true true p st e).1 hd'
+    rcases heff with ⟨hout, hn⟩ | ⟨rc, hout, hn⟩
+    · rw [hn] at ih2 ih3
+      rw [hout]
+      simp only [List.nil_append]
+      exact ⟨ih1, ih2, ih3⟩
+    · rw [hout]
+      simp only [List.singleton_append, List.map_cons, List.length_cons]
+      refine ⟨ih1, ?_, ?_⟩
+      · rw [ih2, hn, expected_succ]
+      · rw [ih3, hn]
+        have h1 : (((runWith true true p (stepWith true true p st e).1 es).2.length + 1 : Nat) : Int)
+            = ((runWith true true p (stepWith true true p st e).1 es).2.length : Int) + 1 := by omega
         rw [h1, Int.add_mul]; omega
-    | tickEnd =>
-      cases inf with
-      | none =>
-        have := ih ⟨w, ser, none, false⟩ rfl
-        simp only [stepWith, Option.isSome_some, Option.isSome_none, if_true, Bool.false_eq_true, if_false,
-          List.nil_append] at this ⊢
-        exact this
-      | some n =>
-        have := ih ⟨advanceWindowEnd w p, ser, none, false⟩ rfl
-        simp only [stepWith, nextTs, advanceWindowEnd, Option.isSome_some, Option.isSome_none, if_true,
-          Bool.false_eq_true, if_false, List.nil_append] at this ⊢
-        exact this
 
-/-! ### who is registered -/
+/-! ### who is registered, who fails -/
 
-theorem mem_addSeries (l : List SeriesId) (s x : SeriesId) : x ∈ addSeries l s ↔ x = s ∨ x ∈ l := by
-  unfold addSeries
-  by_cases h : s ∈ l
-  · simp only [h, if_true]
-    constructor
-    · intro hx; exact Or.inr hx
-    · rintro (rfl | hx)
-      · exact h
-      · exact hx
-  · simp only [h, if_false, List.mem_append, List.mem_singleton]
-    constructor
-    · rintro (hx | hx); exact Or.inr hx; exact Or.inl hx
-    · rintro (hx | hx); exact Or.inr hx; exact Or.inl hx
+theorem status_step (snap advErr : Bool) (p : Int) (x : SeriesId) (st : State) (e : Event) :
+    (decide (x ∈ (stepWith snap advErr p st e).1.series), decide (x ∈ (stepWith snap advErr p st e).1.failing))
+      = specStep x (decide (x ∈ st.series), decide (x ∈ st.failing)) e := by
+  obtain ⟨w, ser, fl, inf, rs, stp, dead⟩ := st
+  cases e with
+  | add s =>
+    by_cases hs : s = x
+    · subst hs
+      by_cases h : s ∈ ser <;> simp [stepWith, specStep, h]
+    · have hx : ¬ x = s := fun h => hs h.symm
+      by_cases h : s ∈ ser <;> simp [stepWith, specStep, h, hs, hx]
+  | remove s =>
+    by_cases hs : s = x
+    · subst hs; simp [stepWith, specStep, removeSeries] <;> congr
+    · have hx : ¬ x = s := fun h => hs h.symm
+      simp [stepWith, specStep, removeSeries, hs, hx] <;> congr
+  | fail s =>
+    by_cases hs : s = x
+    · subst hs; simp [stepWith, specStep] <;> congr
+    · have hx : ¬ x = s := fun h => hs h.symm
+      simp [stepWith, specStep, hs, hx] <;> congr
+  | restart rs' =>
+    by_cases hc : x ∈ rs' <;> simp [stepWith, specStep, hc]
+  | tickStart =>
+    simp only [stepWith, specStep]
+    split <;> try rfl
+    split <;> try rfl
+    split <;> rfl
+  | tickEnd =>
+    simp only [stepWith, specStep]
+    split <;> try rfl
+    split <;> try rfl
+    split <;> try rfl
+    split <;> rfl
 
-theorem mem_removeSeries (l : List SeriesId) (s x : SeriesId) : x ∈ removeSeries l s ↔ x ∈ l ∧ x ≠ s := by
-  simp [removeSeries]
-
-theorem series_registered (snap : Bool) (p : Int) (x : SeriesId) (es : List Event) (st : State) :
-    x ∈ (runWith snap p st es).1.series ↔ es.foldl (regStep x) (decide (x ∈ st.series)) = true := by
+theorem series_status (snap advErr : Bool) (p : Int) (x : SeriesId) (es : List Event) (st : State) :
+    (decide (x ∈ (runWith snap advErr p st es).1.series), decide (x ∈ (runWith snap advErr p st es).1.failing))
+      = es.foldl (specStep x) (decide (x ∈ st.series), decide (x ∈ st.failing)) := by
   induction es generalizing st with
-  | nil => simp [runWith_nil]
-  | cons e es ih =>
-    rw [runWith_cons, List.foldl_cons, ih]
-    have key : decide (x ∈ (stepWith snap p st e).1.series) = regStep x (decide (x ∈ st.series)) e := by
-      cases e with
-      | add s =>
-        simp only [stepWith, regStep]
-        by_cases hs : s = x
-        · subst hs; simp [mem_addSeries]
-        · have : ¬ x = s := fun h => hs h.symm
-          simp [mem_addSeries, hs, this]
-      | remove s =>
-        simp only [stepWith, regStep]
-        by_cases hs : s = x
-        · subst hs; simp [mem_removeSeries]
-        · have : ¬ x = s := fun h => hs h.symm
-          simp [mem_removeSeries, hs, this]
-      | tickStart =>
-        simp only [stepWith, regStep]
-        split <;> try rfl
-        split <;> rfl
-      | tickEnd =>
-        simp only [stepWith, regStep]
-        split <;> try rfl
-        split <;> try rfl
-        split <;> try rfl
-        split <;> rfl
-    rw [key]
+  | nil => rfl
+  | cons e es ih => rw [runWith_cons, List.foldl_cons, ih, status_step]
 
 end Resampler
